@@ -416,7 +416,7 @@ Definition pkg_ctor_status (ctx : schemas) (p : string) : cres unit :=
 
 (* ---------- front-ends: what lands in Type.Default ---------- *)
 (* jsonschema: santhosh-tekuri decodes with UseNumber -> json.Number; walkNumber unwraps it (fix 83e7cb1),
-               walkList copies the list with its json.Number elements; walkEnum, walkObject, walkOneOf/AnyOf,
+               walkList unwraps the elements of a list default; walkEnum, walkObject, walkOneOf/AnyOf,
                walkRef do not look at `default`
    openapi   : kin-openapi decodes into float64 / string / bool / []any / map[string]any; walkObject and
                walkDisjunctions do not look at `default`
@@ -440,15 +440,14 @@ Definition dec_text (m e : Z) : string :=
     let n := (List.length ds' - k)%nat in
     list_str (sign ++ firstn n ds' ++ "."%char :: skipn n ds')%list.
 
-(* values nested inside a list / map default are copied as the decoder delivered them *)
+(* values nested inside a list / map default (JSON Schema: walkList unwraps the json.Number elements too) *)
 Fixpoint fe_elem (fmt : string) (numtext : Z -> Z -> string) (j : json) : dyn :=
   match j with
   | JNull => DNil
   | JBool b => DBool b
   | JStr s => DStr s
   | JNum m e =>
-      if seqb fmt "jsonschema" then DFloat "json.Number" (numtext m e)
-      else if seqb fmt "openapi" then DFloat "float64" (numtext m e)
+      if seqb fmt "openapi" then DFloat "float64" (numtext m e)
       else if Z.eqb e 0 then DInt "int64" m else DFloat "float64" (numtext m e)
   | JArr l => match l with
               | [] => if seqb fmt "cue" then DNil else DList []
@@ -459,8 +458,7 @@ Fixpoint fe_elem (fmt : string) (numtext : Z -> Z -> string) (j : json) : dyn :=
   end.
 
 (* the default of a field.  JSON Schema: walkNumber unwraps the json.Number of a numeric default
-   (unwrapJSONNumber: int64 when the literal is an integer, else float64); the elements of a list default
-   are NOT unwrapped. *)
+   (unwrapJSONNumber: int64 when the literal is an integer, else float64), walkList those of a list default. *)
 Definition fe_value (fmt : string) (numtext : Z -> Z -> string) (j : json) : dyn :=
   match j with
   | JNum m e =>
